@@ -1,27 +1,19 @@
 /-
-  MODEL of `index_to_loc` / `highlight_location` (`py_gql/_string_utils.py`) and of the rendering
+  MODEL of `highlight_location` (and `index_to_loc`, shared with C10) (`py_gql/_string_utils.py`) and of the rendering
   contract of `GraphQLSyntaxError` (`py_gql/exc.py`, with proposed fix C01-L6: the position used for
   rendering is clamped into `[0, len(source)]`). `IndexError` is modelled explicitly (`none`).
 -/
 import PyGqlModel.Token
 import PyGqlModel.BlockString
+import PyGqlModel.Response
 
 namespace PyGql.StringUtils
 open PyGql.BlockString (splitLines)
 
-/-- the `for offset, char in enumerate(body)` loop of `index_to_loc` -/
-def locLoop (position : Nat) : Nat → Nat → Nat → Text → Nat × Nat
-  | _, lines, cols, [] => (lines + 1, cols + 1)
-  | offset, lines, cols, c :: t =>
-    if offset = position then (lines + 1, cols + 1)
-    else if c = 10 then locLoop position (offset + 1) (lines + 1) 0 t
-    else locLoop position (offset + 1) lines (cols + 1) t
-
-/-- `index_to_loc(body, position)`; `none` = `IndexError` (positions are never negative here) -/
-def indexToLoc (body : Text) (position : Nat) : Option (Nat × Nat) :=
-  if body.isEmpty && position == 0 then some (1, 1)
-  else if position > body.length then none
-  else some (locLoop position 0 0 0 body)
+/-- `index_to_loc(body, position)`; `none` = `IndexError`. There is ONE model of `index_to_loc`:
+    `Response.indexToLoc` (C10), which follows fix X4 — LF, a lone CR and CRLF each end a line, the CR of a
+    CRLF pair has no width. -/
+abbrev indexToLoc (body : Text) (position : Nat) : Option (Nat × Nat) := Response.indexToLoc body position
 
 /-- what `highlight_location` indexes: the (line, column), and the source lines it prints
     (`lines[l]` for `l` in `min_line .. max_line`), every subscript checked -/
